@@ -73,7 +73,8 @@ def consistent_intervals(guards):
 
 
 class Engine:
-    def __init__(self, model: Model, inline_depth=4, split_bool=True, keep_props=(), inline_subobjects=False):
+    def __init__(self, model: Model, inline_depth=4, split_bool=True, keep_props=(), inline_subobjects=False, no_inline=()):
+        self.no_inline = set(no_inline)  # method names kept as opaque `call` effects (e.g. abstract hooks)
         self.M = model
         self.depth = inline_depth
         self.split_bool = split_bool
@@ -175,7 +176,18 @@ class Engine:
                 else:
                     p.store[k] = old
                 return ("tuple", tuple(out))
-            return ("opaque", ast.unparse(e))
+            # generator over an unknown iterable: keep element expression and iterable symbolically
+            k = ("l", fr["id"], e.generators[0].target.id)
+            old = p.store.get(k)
+            p.store[k] = ("iter", it, e.lineno)
+            try:
+                elt = self.ev(e.elt, p, fr)
+            finally:
+                if old is None:
+                    p.store.pop(k, None)
+                else:
+                    p.store[k] = old
+            return ("gen", elt, it)
         if isinstance(e, (ast.GeneratorExp, ast.ListComp, ast.Lambda, ast.Dict)):
             return ("opaque", ast.unparse(e))
         raise Unsupported(type(e).__name__)
@@ -513,6 +525,16 @@ class Engine:
                     for t in tg:
                         if isinstance(t, ast.Name):
                             p.store[("l", fr["id"], t.id)] = ("havoc", t.id, s.lineno)
+                        elif isinstance(t, ast.Attribute) and isinstance(t.value, ast.Name) and t.value.id == "self":
+                            p.store[("f", fr["self"], t.attr)] = ("havoc-field", t.attr, s.lineno)
+                        elif isinstance(t, ast.Tuple):
+                            for t2 in t.elts:
+                                if isinstance(t2, ast.Name):
+                                    p.store[("l", fr["id"], t2.id)] = ("havoc", t2.id, s.lineno)
+            if isinstance(s, (ast.For, ast.AsyncFor)):
+                for t2 in ast.walk(s.target):
+                    if isinstance(t2, ast.Name):
+                        p.store[("l", fr["id"], t2.id)] = ("havoc", t2.id, s.lineno)
             return [p]
         if isinstance(s, ast.Try):
             p.effects.append(("try", s.lineno))
@@ -562,6 +584,9 @@ class Engine:
             if f.id in PURE_BUILTINS or f.id in ("tuple", "list"):
                 return [(p, self.call_expr(e, p, fr))]
             callee = M.funcs.get(f"{fr['fn'].mod}.{f.id}")
+        if callee is not None and callee.name in self.no_inline:
+            p.effects.append(("call", callee.qual, tuple(args), e.lineno))
+            return [(p, ("call", callee.qual, tuple(([recv] if recv else []) + args), e.lineno))]
         may_inline = callee is not None and (self.inline_sub or recv is None or recv == ("self0",) or callee.kind == "static")
         if callee is not None and not may_inline:
             key = self.sv_key(f.value, p, fr) if isinstance(f, ast.Attribute) else None
@@ -663,6 +688,23 @@ def show_path(p: Path):
             out.append(f"    => {e}")
     out.append(f"    [{p.status}] ret={show_sv(p.ret) if p.ret else None}")
     return "\n".join(out)
+
+
+def loop_paths_at(E: Engine, fn: Func, node, path=None, fr=None):
+    """paths through the body of a given loop node, starting from `path` (default: fresh store) in frame `fr`"""
+    if fr is None:
+        fr = E.frame(fn, ("self0",), [], None)
+        fr["params"] = {a: ("p", a) for a in fn.params}
+    p = path.clone() if path is not None else Path()
+    p.status = "run"
+    starts = [p]
+    if isinstance(node, ast.While):
+        t, f = E.branch(E.ev(node.test, p, fr), p, node.lineno)
+        starts = t
+    else:
+        it = E.ev(node.iter, p, fr)
+        E.assign(node.target, ("iter", it, node.lineno), p, fr, node.lineno)
+    return E.block(node.body, starts, fr), fr
 
 
 def loop_body_paths(E: Engine, fn: Func, nth=0, pre=None):
